@@ -107,8 +107,8 @@ Consume ==
                    CASE c = "ConnLimit" -> ConnLimit'
                      [] c = "Sequential" -> Sequential'
                      [] c = "AtMostOnce" -> \A o \in N : cnt'[o] <= 1
-                     [] c = "SuccessComplete" -> SuccessComplete' /\ (e.a = "retok" => \A o \in Ops : cnt'[o] = 1)
-                     [] c = "NoSuccessOnFailure" -> NoSuccessOnFailure'
+                     [] c = "SuccessComplete" -> SuccessCompleteOps' /\ (e.a = "retok" => \A o \in Ops : cnt'[o] = 1)
+                     [] c = "NoSuccessOnFailure" -> NoSuccessOnFailureOps'
                      [] c = "RejectedNeverRuns" -> RejectedNeverRuns'
                      [] c = "QuiescentAfterRaise" -> QuiescentAfterRaise'
                      [] c = "TimingsOwn" -> (e.a = "retok" => TimingsOwn(e.tm, ost', st', en'))
